@@ -482,7 +482,7 @@ func (pr *progRender) render() string {
 				if m == "PT" {
 					m = "PTV"
 				}
-				pr.pre = append(pr.pre, fmt.Sprintf("uh_%d := &unitHolder{Env: env, Unit: %d}", pt.Unit, pt.Unit))
+				pr.pre = append(pr.pre, fmt.Sprintf("uh_%d := &unitHolder{Env: env, Unit: %d}\n_ = uh_%d // also used outside the directive", pt.Unit, pt.Unit, pt.Unit))
 				return fmt.Sprintf("uh_%d.%s", pt.Unit, m)
 			}
 			var body []string
@@ -547,7 +547,7 @@ func (pr *progRender) render() string {
 				if sl.Named {
 					coll = fmt.Sprintf("mkNL_%s(env.Coll(%d))", sl.Elem.Suffix(), sl.Coll)
 				} else if sl.Boxed {
-					pr.pre = append(pr.pre, fmt.Sprintf("bx_%d := box_%s{Items: %s}", sl.Unit, sl.Elem.Suffix(), coll))
+					pr.pre = append(pr.pre, fmt.Sprintf("bx_%d := box_%s{Items: %s}\n_ = bx_%d // also used outside the directive", sl.Unit, sl.Elem.Suffix(), coll, sl.Unit))
 					coll = fmt.Sprintf("bx_%d.Items", sl.Unit)
 				}
 				parts := []string{pr.wrapz(fe, "nil"), pr.wrapz(coll, "nil")}
